@@ -44,4 +44,32 @@ def lenKey (P : Prims) (k0 : List UInt8) : Nat → List UInt8
   | 0 => k0
   | e + 1 => P.stream (lenKey P k0 e) (lenNonce e) (REKEY_INTERVAL * LENGTH_FIELD_LEN) 32
 
+/-! ### what peer/peer.go must reach on top of the transport -/
+
+/-- outcome of connecting an outbound peer (v2 attempted or not) to an inbound peer (v2 accepted or
+not): did each side complete version/verack, is each side's connection still marked v2, how many
+pongs answer `pings` pings sent from both sides, and is the initiator told to retry with v1. -/
+structure PeerOutcome where
+  inVerack : Bool
+  outVerack : Bool
+  inV2 : Bool
+  outV2 : Bool
+  pongs : Nat
+  downgrade : Bool
+
+/-- BIP324 negotiation between v1 and v2 capable nodes:
+* v2 → v2 (same network): encrypted session, both sides complete;
+* v1 → v2-capable responder: the responder recognises the v1 version message on its first 16 bytes,
+  falls back to v1 on the same connection (no longer marked v2) and both complete;
+* v2 → v1-only responder: the responder hangs up on the 64 key bytes; the initiator, having read
+  nothing, is told to reconnect with v1 (`downgrade`);
+* v1 → v1: unchanged;
+* different networks never complete. -/
+def peerNegotiation (outV2 inV2 sameNet : Bool) (pings : Nat) : PeerOutcome :=
+  match outV2, inV2 with
+  | true, true => if sameNet then ⟨true, true, true, true, 2 * pings, false⟩ else ⟨false, false, true, true, 0, false⟩
+  | false, true => if sameNet then ⟨true, true, false, false, 2 * pings, false⟩ else ⟨false, false, true, false, 0, false⟩
+  | true, false => ⟨false, false, false, true, 0, true⟩
+  | false, false => if sameNet then ⟨true, true, false, false, 2 * pings, false⟩ else ⟨false, false, false, false, 0, false⟩
+
 end BV.C19.Spec
